@@ -35,12 +35,31 @@ const (
 
 var c33KindNames = []string{"ok", "fail", "follower", "cancel", "late"}
 
+// What a failing job returns. "The first job error cancels the remaining work and is the error returned" holds for
+// whatever error a job returns: also for one that IS or WRAPS context.Canceled / context.DeadlineExceeded although the
+// worker's own context is live (the job's own sub-operation was cancelled or timed out - a remote call, a stream).
+const (
+	c33ErrDistinct     = iota // a distinct error value of the harness
+	c33ErrCanceled            // context.Canceled itself
+	c33ErrCanceledWrap        // fmt.Errorf("...: %w", context.Canceled), distinct value
+	c33ErrCanceledJoin        // errors.Join(distinct, context.Canceled)
+	c33ErrDeadline            // context.DeadlineExceeded itself
+	c33ErrDeadlineWrap        // fmt.Errorf("...: %w", context.DeadlineExceeded), distinct value
+	c33ErrDeadlineJoin        // errors.Join(distinct, context.DeadlineExceeded)
+)
+
+var c33ErrKindNames = []string{"", "=canceled", "=wrap(canceled)", "=join(canceled)", "=deadline", "=wrap(deadline)", "=join(deadline)"}
+
+// the error is a bare sentinel: not a distinct value, several jobs (and a cancellation from outside) may yield the same
+func c33ErrBare(k int) bool { return k == c33ErrCanceled || k == c33ErrDeadline }
+
 type c33Plan struct {
 	Mode     string // base | errbase (explicit NewJob/Done/Wait on NewBaseJobWorker / NewErrCallbackJobWorker) | run | errcb | batch
 	W        int64  // worker size (batch: limit)
 	N        int    // jobs (batch: size)
 	Kinds    []int
 	Yields   []int
+	ErrKinds []int  // what a failing job returns (c33Err...)
 	FailLate []bool // a failing job first waits for the late gate (so that it fails while the submitter/Wait is blocked)
 	DoneAt   int    // base: Done() is called after this many submissions, the rest is still submitted
 	PrefFail int    // batch: index of the batch whose preparation fails, -1 = none
@@ -64,6 +83,10 @@ func (p c33Plan) fingerprint() string {
 
 		if p.Kinds[i] == c33Fail && p.FailLate[i] {
 			b.WriteByte('~')
+		}
+
+		if p.Kinds[i] == c33Fail && p.ErrKinds[i] != c33ErrDistinct {
+			b.WriteByte("0123456789"[p.ErrKinds[i]])
 		}
 	}
 
@@ -110,10 +133,16 @@ func c33GenPlan(t *rapid.T) c33Plan {
 	p.Kinds = make([]int, p.N)
 	p.Yields = make([]int, p.N)
 	p.FailLate = make([]bool, p.N)
+	p.ErrKinds = make([]int, p.N)
 
 	for i := range p.Kinds {
 		p.Yields[i] = rapid.IntRange(0, 6).Draw(t, "yields")
 		p.FailLate[i] = rapid.IntRange(0, 2).Draw(t, "failLate") == 0
+
+		// half of the failing jobs fail with a context error of their own (the worker context is live at that moment)
+		if ek := rapid.IntRange(0, 11).Draw(t, "errKind"); ek >= 6 {
+			p.ErrKinds[i] = ek - 5
+		}
 
 		k := rapid.IntRange(0, 19).Draw(t, "kind")
 
@@ -231,6 +260,25 @@ func c33NewExec(p c33Plan) *c33Exec {
 
 	for i := range x.errs {
 		x.errs[i] = fmt.Errorf("c33: injected error of job %d", i)
+
+		if p.Kinds[i] != c33Fail {
+			continue
+		}
+
+		switch p.ErrKinds[i] {
+		case c33ErrCanceled:
+			x.errs[i] = context.Canceled
+		case c33ErrCanceledWrap:
+			x.errs[i] = fmt.Errorf("c33: injected error of job %d: %w", i, context.Canceled)
+		case c33ErrCanceledJoin:
+			x.errs[i] = errors.Join(x.errs[i], context.Canceled)
+		case c33ErrDeadline:
+			x.errs[i] = context.DeadlineExceeded
+		case c33ErrDeadlineWrap:
+			x.errs[i] = fmt.Errorf("c33: injected error of job %d: %w", i, context.DeadlineExceeded)
+		case c33ErrDeadlineJoin:
+			x.errs[i] = errors.Join(x.errs[i], context.DeadlineExceeded)
+		}
 	}
 
 	return x
@@ -312,12 +360,32 @@ func (x *c33Exec) job(ctx context.Context, i int) (err error) {
 // c33Injected: which injected errors err matches.
 func (x *c33Exec) matches(err error) (idx []int, pref, canceled bool) {
 	for i := range x.errs {
+		// a bare sentinel is not a distinct value (see bareOf)
+		if x.p.Kinds[i] == c33Fail && c33ErrBare(x.p.ErrKinds[i]) {
+			continue
+		}
+
 		if errors.Is(err, x.errs[i]) {
 			idx = append(idx, i)
 		}
 	}
 
 	return idx, errors.Is(err, x.prefErr), errors.Is(err, context.Canceled)
+}
+
+// bareOf: the failing jobs whose error is a bare sentinel (context.Canceled / context.DeadlineExceeded itself) that err matches.
+func (x *c33Exec) bareOf(err error) (idx []int) {
+	if err == nil {
+		return nil
+	}
+
+	for i := range x.errs {
+		if x.p.Kinds[i] == c33Fail && c33ErrBare(x.p.ErrKinds[i]) && errors.Is(err, x.errs[i]) {
+			idx = append(idx, i)
+		}
+	}
+
+	return idx
 }
 
 // c33Census lists the live goroutines of the process (id -> header and top frame) without the runtime's own ones.
@@ -410,6 +478,10 @@ func c33Describe(p c33Plan) string {
 				n = "fail-late"
 			}
 
+			if k == c33Fail {
+				n += c33ErrKindNames[p.ErrKinds[i]]
+			}
+
 			ks = append(ks, fmt.Sprintf("%d:%s", i, n))
 		}
 
@@ -432,7 +504,7 @@ func TestC33(t *testing.T) {
 	r := ev.Start(t, "C33")
 	defer r.Finish()
 	r.Rule("plans: mode {BaseJobWorker / ErrCallbackJobWorker with explicit NewJob/Done/Wait, RunJobWorker, RunErrCallbackJobWorker, BatchWork} x worker size 1..16 / batch limit 1..50 " +
-		"x 0..200 jobs of kinds {ok, fail with a distinct error, follower (fails only after the worker context was cancelled), external cancel, late (still running when Wait starts)} " +
+		"x 0..200 jobs of kinds {ok, fail with a distinct error or - half of the failing jobs - with an error that is / wraps (fmt.Errorf %w) / joins (errors.Join) context.Canceled or context.DeadlineExceeded while the worker context is live, follower (fails only after the worker context was cancelled), external cancel, late (still running when Wait starts)} " +
 		"with drawn yields, batch limits below the size in half of the batch plans (several batches, failing job with followers / late jobs in the SAME batch), Done() before the last submission, the submitter stopping the worker (Cancel / Close / parent context) right after a NewJob call returned, failing batch preparation. " +
 		"non-trivial: >= 2 batches, or a failing job that reported its error while other jobs were in flight / still to be submitted, or a stop right after an accepted job; distinct by (mode, sizes, stop, kind string)")
 	r.Floor(100)
@@ -681,6 +753,12 @@ func TestC33(t *testing.T) {
 			}
 
 			for _, i := range idx {
+				if errAtReturn[i] {
+					return
+				}
+			}
+
+			for _, i := range x.bareOf(callErr) {
 				if errAtReturn[i] {
 					return
 				}
@@ -1155,6 +1233,14 @@ func TestC33(t *testing.T) {
 
 		if x.inflightAtFail.Load() >= 2 {
 			classes = append(classes, "error-with-others-in-flight")
+		}
+
+		for i := range errAtReturn {
+			if errAtReturn[i] && p.Kinds[i] == c33Fail && p.ErrKinds[i] != c33ErrDistinct && !hasCancel {
+				classes = append(classes, "job-failed-with-context-error-of-its-own:"+p.Mode)
+
+				break
+			}
 		}
 
 		if woken > 0 {
